@@ -22,6 +22,10 @@ VARIANTS = [
     V("rename-fallback", BS, "            except AttributeError:\n                pass\n", "            except AttributeError:\n                setattr(self, name, None)\n", rule="R16.3"),
     V("names-key-typo", CORE + "sdeint.py", "key in (\"drift\", \"diffusion\", \"prior_drift\", \"drift_and_diffusion\",", "key in (\"drift\", \"difusion\", \"prior_drift\", \"drift_and_diffusion\",", rule="R16.3"),
     V("solver-uses-missing-slot", CORE + "methods/euler.py", "f, g_prod = self.sde.f_and_g_prod(t0, y0, I_k)", "f, g_prod = self.sde.f_and_gprod(t0, y0, I_k)", rule="R16"),
+    V("levy-jac-ga-transposed", BS, "            ga = torch.bmm(g, a)\n            dg_ga_jvp = [", "            ga = torch.bmm(g, a.transpose(1, 2))\n            dg_ga_jvp = [", rule="R16.6"),
+    V("levy-jac-wrong-column", BS, "                    grad_inputs=ga[..., col_idx],\n", "                    grad_inputs=ga[..., 0],\n", rule="R16.6"),
+    V("levy-jac-table", BS, "        }.get(sde.noise_type, self._return_zero)", "        }.get(sde.noise_type, self.dg_ga_jvp_column_sum_v1)", rule="R16.6"),
+    V("gdg-additive-nonzero", BS, "        return self.g_prod(t, y, v1), 0.\n", "        return self.g_prod(t, y, v1), self.g_prod(t, y, v2)\n", rule="R16.5"),
     # twins
     V("twin-default2-inline", BS, "        f, g = self.f_and_g(t, y)\n        return f, self.prod(g, v)", "        fg = self.f_and_g(t, y)\n        return fg[0], self.prod(fg[1], v)", expect="silent"),
 ]
